@@ -208,7 +208,7 @@ func c17Funcs(c *Ctx) int {
 		case opType:
 			return []namedValue{{"Eq", reflect.ValueOf(stackage.Eq)}, {"nil-op", reflect.Zero(opType)}, nv("userOp{}", userOp{}), nv("ComparisonOperator(9)", stackage.ComparisonOperator(9))}
 		case intType:
-			return []namedValue{nv("0", 0), nv("-1", -1), nv("3", 3), nv("MinInt", -1<<63)}
+			return []namedValue{nv("0", 0), nv("-1", -1), nv("3", 3), nv("MinInt", -1<<63), nv("MaxInt", int(^uint(0)>>1)), nv("1<<62", 1<<62), nv("1<<40", 1<<40)}
 		}
 		return basicValues(t)
 	}
